@@ -134,7 +134,9 @@ CHECKS = {
         "assumptions": ["the CLI binary is built from the working tree by the driver", "no profile is registered today, so the profile leg is vacuous until one is"],
     },
     "C14": {
-        "legs": legs_simple("props", "^TestC14$", 14, 16),
+        "legs": lambda tier: [{"pkg": "props", "run": "^TestC14$", "shards": 14 if tier == "quick" else 16},
+                              # encoders under concurrency, race-detector build
+                              {"pkg": "racecheck", "run": "^TestConcurrentJSON$", "shards": 4 if tier == "quick" else 16, "race": True, "replay_pkg": False}],
         "needs_cli": True,
         "rule": "enumerated: status values -3..12, the eight labels (again after the library's own summary printer has run), WriteJSON of the global registry and of one holding harness lints with far-future / pre-1970 dates; rapid: result sets from generated objects (biased to names with invalid UTF-8, "
                 "quotes, <>&, NUL so details carry them), synthetic results with arbitrary details bytes x each status, arbitrary label strings, arbitrary JSON tokens in the place of a status (numbers, null, booleans, arrays, objects, escaped strings: decoding fails cleanly - never a panic - or yields a label's status), WriteJSON of generated filtered "
@@ -151,7 +153,9 @@ CHECKS = {
         "assumptions": COMMON_ASSUME + ["a variant the parser rejects is counted, not judged"],
     },
     "C16": {
-        "legs": legs_simple("props", "^TestC16$", 14, 16),
+        "legs": lambda tier: [{"pkg": "props", "run": "^TestC16$", "shards": 14 if tier == "quick" else 16},
+                              # key-quality verdicts from eight goroutines at once, race-detector build
+                              {"pkg": "racecheck", "run": "^TestConcurrentKeys$", "shards": 2 if tier == "quick" else 8, "race": True, "replay_pkg": False}],
         "needs_cli": True,
         "rule": "enumerated: every divisor 2..769 times a 1031-bit prime, bit lengths {1,2,8,512,1023..1025,2040,2047..2049,2056,3071..3073,4096} x exponents {1,2,3,4,65535..65538,2^31-1,2^62+1} "
                 "(a quarter of the base/threshold/exponent grid per seed), genuinely self-signed roots built from 10 committed keys of 1023..4096 bits under the base's validity and eight periods on every side of the 2011 / 2014 dates; rapid: moduli near thresholds, "
@@ -173,7 +177,8 @@ CHECKS = {
         "legs": lambda tier: [{"pkg": "props", "run": "^TestC18$", "shards": 8 if tier == "quick" else 16},
                               # the table generator (package main): sources copied verbatim from the tree under test, driven in-package
                               {"pkg": "gtldupdate", "run": "^TestC18Generator$", "shards": 2 if tier == "quick" else 8,
-                               "gensrc": {"from": "cmd/zlint-gtld-update", "tmpl": "gtldgen", "name": "gtldupdate"}}],
+                               "gensrc": {"from": "cmd/zlint-gtld-update", "tmpl": "gtldgen", "name": "gtldupdate"}},
+                              {"pkg": "racecheck", "run": "^TestColdUtil$", "shards": 2 if tier == "quick" else 8, "race": True, "replay_pkg": False}],
         "rule": "the TLD table is read as data with go/parser; enumerated in both tiers: well-formedness of every entry, and HasValidTLD for every entry x {delegation, removal} x "
                 "{-1s,0,+1s} x 3 spellings x 3 zones; rapid: labels from table keys (any case), near misses, fixed internal names, random strings x domain shapes x instants (near a "
                 "boundary or uniform 1980-2040); certificates: home objects of e_dnsname_not_valid_tld with generated SAN/CN and notBefore, and (enumerated) 27 common names that are or only resemble IP literals (zones, brackets, ports, leading zeros, short forms); 16 extreme instants per table entry (year 1 ... 9999); the Unicode spellings of the table's xn-- keys (not in the table); bit-5 look-alikes of table keys (@ [ \\ ] ^ _ ` for letters); CN = case variant of a SAN entry. Oracle: integer model of the statement "
@@ -182,7 +187,9 @@ CHECKS = {
                         "generator leg: registry data are what the two ICANN feeds publish - lower-case LDH gTLD names in the JSON, upper-case names one per LF-terminated line in the TLD list, removal not earlier than delegation, no entry called onion; the HTTP layer is replaced by a fake transport"],
     },
     "C19": {
-        "legs": legs_simple("props", "^TestC19$", 8, 16),
+        "legs": lambda tier: [{"pkg": "props", "run": "^TestC19$", "shards": 8 if tier == "quick" else 16},
+                              # the first calls of a fresh process are concurrent, under the race detector
+                              {"pkg": "racecheck", "run": "^TestColdUtil$", "shards": 3 if tier == "quick" else 12, "race": True, "replay_pkg": False}],
         "rule": "enumerated in both tiers: first/last/one-below/one-above address of each of 22 special-purpose blocks written from the RFCs, every prefix length 0..32/128 around the "
                 "first, middle and last address of every block in 4-byte and IPv4-mapped form (so every super-net and sub-net), 26 public anchors; unmasked network bases (host bits set) against every block; rapid: addresses near blocks, "
                 "perturbed anchors, uniform v4/v6 x any prefix; certificates with generated iPAddress SANs, IP common names and permitted (and, next to them, excluded) IP name constraints on home objects. "
@@ -214,7 +221,10 @@ CHECKS = {
                                          "I/O freedom is observed on executed paths only"],
     },
     "C10": {
-        "legs": lambda tier: [{"pkg": "racecheck", "run": "^TestC10$", "shards": 12 if tier == "quick" else 16, "race": True, "timeout": 900 if tier == "quick" else 7200}],
+        "legs": lambda tier: [{"pkg": "racecheck", "run": "^TestC10$", "shards": 12 if tier == "quick" else 16, "race": True, "timeout": 900 if tier == "quick" else 7200},
+                              {"pkg": "racecheck", "run": "^TestColdUtil$", "shards": 2 if tier == "quick" else 8, "race": True},
+                              {"pkg": "racecheck", "run": "^TestConcurrentJSON$", "shards": 2 if tier == "quick" else 8, "race": True},
+                              {"pkg": "racecheck", "run": "^TestConcurrentKeys$", "shards": 1 if tier == "quick" else 4, "race": True}],
         "maxpar": 8,
         "rule": "hammer phase after every program: 8 goroutines lint the program's focus objects (corpus certificates on which its four focus lints - walked round-robin over the registry - apply) and never-seen-before variants of them (fresh A-labels, ACE prefix in lower / upper / mixed case) 150 (quick) / 400 (thorough) times each through a registry holding only the focus lints; the sequential reference is computed afterwards; 120 s without finishing = deadlock. one program in four concentrates on revocation lists, one in eight on OCSP responses; workers also Filter themselves a registry of their own (options that select everything or not) and reconfigure it while others lint configuration-sensitive objects through the shared one. rapid programs: 2-16 goroutines x 5-40 operations from {Lint*Ex on an own fresh parse against a shared registry, Filter, Names, Sources, ByName/BySource/Lints per kind, "
                 "WriteJSON, GetConfiguration, DefaultConfiguration}; shared registries = global + 1-3 generated filtered ones; 6-24 objects per program (corpus walked round-robin so every "
